@@ -815,9 +815,13 @@ impl ReCompiler {
                         max,
                         match_length,
                     )))
-                } else {
-                    // otherwise need to match with nothing
+                } else if min == 0 {
+                    // a zero-width operand that may be skipped matches like nothing
                     Ok(Operation::from(Nothing))
+                } else {
+                    // a zero-width operand repeated at least once is the
+                    // operand itself (its position tests must be kept)
+                    Ok(ret)
                 }
             } else {
                 Ok(Operation::from(Repeat::new(ret, min, max, true)))
